@@ -298,6 +298,114 @@ def zip_prop(case, rec):
 
 
 # ---------------------------------------------------------------------------
+# Archive trees (siblings that hold same-named inner archives) read through ONE reader, several requests in a row
+
+INNER_NAMES = ['mibs.zip', 'in.zip', 'sub/mibs.zip', 'MORE.ZIP', 'deep/er/in.zip']
+CONTENTS = [b'X DEFINITIONS ::= BEGIN END\n', b'caf\xc3\xa9 \xff\xfe bad utf8', b'one\r\ntwo\r\n', b'mac\rline\r', b'A', b'B', b'C']
+
+
+@st.composite
+def archive(draw, depth):
+    files = []
+    for i in range(draw(st.integers(0, 3))):
+        base = draw(st.sampled_from(STEMS)) + draw(st.sampled_from(EXTS))
+        folder = draw(st.sampled_from(['', '', 'folder/', 'a/b/']))
+        content = draw(st.one_of(st.sampled_from(CONTENTS), st.binary(min_size=1, max_size=12)))
+        mtime = 1000000000 + draw(st.integers(0, 5000)) * 2
+        if not any(f[0] == folder + base for f in files):
+            files.append([folder + base, content.hex(), mtime])
+    kids = []
+    if depth > 0:
+        for i in range(draw(st.integers(0, 3))):
+            nm = draw(st.sampled_from(INNER_NAMES))
+            if not any(k[0] == nm for k in kids):
+                kids.append([nm, draw(archive(depth - 1))])
+    return {'files': files, 'kids': kids}
+
+
+@st.composite
+def archive_trees(draw):
+    opts = {}
+    for k in ('originalMatching', 'uppercaseMatching', 'lowcaseMatching', 'fuzzyMatching'):
+        opts[k] = draw(st.sampled_from((True, True, True, False)))
+    if not (opts['originalMatching'] or opts['uppercaseMatching'] or opts['lowcaseMatching']):
+        opts['originalMatching'] = True
+    return {'root': draw(archive(3)), 'opts': opts, 'deflate': draw(st.booleans()),
+            'requests': draw(st.lists(st.sampled_from(REQUESTS), min_size=1, max_size=5))}
+
+
+def _arch_bytes(a, deflate, out, depth):
+    members = []
+    for name, hexc, mtime in a['files']:
+        dt = time.gmtime(mtime)[:6]
+        dt = dt[:5] + (dt[5] - dt[5] % 2,)
+        members.append((name, bytes.fromhex(hexc), dt))
+        out.append((os.path.basename(name), bytes.fromhex(hexc), time.mktime(dt + (0, 0, -1)), depth))
+    for nm, kid in a['kids']:
+        members.append((nm, _arch_bytes(kid, deflate, out, depth + 1), (2020, 1, 1, 0, 0, 0)))
+    return _zip_bytes(members, deflate)
+
+
+def ziptree_prop(case, rec):
+    from pysmi.reader.zipreader import ZipReader
+    from pysmi import error
+    root = tempfile.mkdtemp(prefix='c14t')
+    try:
+        allfiles = []
+        blob = _arch_bytes(case['root'], case['deflate'], allfiles, 0)
+        path = os.path.join(root, 'mibs.zip')
+        with open(path, 'wb') as fh:
+            fh.write(blob)
+        reader = ZipReader(path).setOptions(**case['opts'])
+        by_base = {}
+        for b, c, mt, depth in allfiles:
+            by_base.setdefault(b, []).append((c, mt, depth))
+        maxdepth = max([f[3] for f in allfiles] or [0])
+        rec.count('ziptree.depth.%d' % maxdepth)
+        rec.count('ziptree.requests.%d' % len(case['requests']))
+
+        def count_archives(a):
+            return 1 + sum(count_archives(k) for _, k in a['kids'])
+
+        def same_named(a, seen):
+            for nm, k in a['kids']:
+                seen.setdefault(os.path.basename(nm), []).append(1)
+                same_named(k, seen)
+            return seen
+        dup_inner = any(len(v) > 1 for v in same_named(case['root'], {}).values())
+        if dup_inner:
+            rec.count('ziptree.same-named-inner-archives')
+        for step, name in enumerate(case['requests']):
+            try:
+                got = reader.getData(name)
+            except error.PySmiReaderFileNotFoundError:
+                got = None
+            except Exception as e:
+                raise Violation('reader-raised', 'request %d (%s): %r' % (step, name, e), case)
+            rec.evaluated()
+            required, allowed = variants(name, case['opts'])
+            sure = [b for b in by_base if b in required and all(c for c, _, _ in by_base[b])]
+            if got is None:
+                if sure:
+                    raise Violation('zip-member-not-found', 'request %d of %r on one reader: %s not found, members %r exist '
+                                    '(max nesting depth %d)' % (step, case['requests'], name, sorted(sure), maxdepth), case)
+            else:
+                info, text = got
+                if info.file not in allowed:
+                    raise Violation('unrelated-file-returned', 'request %s returned member %r' % (name, info.file), case)
+                cands = by_base.get(info.file, [])
+                if not any(text == c.decode('utf-8', 'ignore') and info.mtime == mt for c, mt, _ in cands):
+                    raise Violation('wrong-content-or-mtime', 'request %d (%s): member %s: text %r mtime %r; candidates %r' % (
+                        step, name, info.file, text[:40], info.mtime, [(c[:10], mt) for c, mt, _ in cands]), case)
+        if maxdepth >= 2 and len(case['requests']) >= 2 and dup_inner:
+            rec.mark_nontrivial(digest(['ziptree', case]))
+        if dup_inner and len(rec.samples) < 2:
+            rec.sample({'archives': count_archives(case['root']), 'requests': case['requests']})
+    finally:
+        shutil.rmtree(root, ignore_errors=True)
+
+
+# ---------------------------------------------------------------------------
 # URL dispatch (enumerated)
 
 
@@ -324,6 +432,31 @@ def url_table():
     return rows
 
 
+def _judge_reader(row, r, case):
+    from pysmi.reader.localfile import FileReader
+    from pysmi.reader.zipreader import ZipReader
+    from pysmi.reader.httpclient import HttpReader
+    from pysmi.reader.ftpclient import FtpReader
+    url, kind, want = row
+    cls = {'file': FileReader, 'zip': ZipReader, 'http': HttpReader, 'ftp': FtpReader}[kind]
+    if type(r) is not cls:
+        raise Violation('wrong-reader-kind', '%s -> %s, expected %s' % (url, type(r).__name__, cls.__name__), case)
+    if r.fuzzyMatching is not False:
+        raise Violation('reader-options-not-applied', url, case)
+    if kind == 'file' and r._path != os.path.normpath(want['path']):
+        raise Violation('reader-path', '%s -> %r, expected %r' % (url, r._path, want['path']), case)
+    if kind == 'zip' and r._name != want['path']:
+        raise Violation('reader-path', '%s -> %r, expected %r' % (url, r._name, want['path']), case)
+    if kind == 'http':
+        exp = '%s://%s:%d%s' % ('https' if want['ssl'] else 'http', want['host'], want['port'], want['loc'])
+        if r._url != exp:
+            raise Violation('http-reader-url', '%s -> %r, expected %r' % (url, r._url, exp), case)
+    if kind == 'ftp':
+        got = (r._host, r._port, bool(r._ssl), r._user)
+        if got != (want['host'], want['port'], want['ssl'], want['user']):
+            raise Violation('ftp-reader-params', '%s -> %r, expected %r' % (url, got, want), case)
+
+
 def url_prop(row, rec):
     from pysmi.reader.url import getReadersFromUrls
     from pysmi.reader.localfile import FileReader
@@ -348,26 +481,43 @@ def url_prop(row, rec):
         return
     if readers == 'error' or len(readers) != 1:
         raise Violation('url-rejected', '%s -> %r' % (url, readers), case)
-    r = readers[0]
-    cls = {'file': FileReader, 'zip': ZipReader, 'http': HttpReader, 'ftp': FtpReader}[kind]
-    if type(r) is not cls:
-        raise Violation('wrong-reader-kind', '%s -> %s, expected %s' % (url, type(r).__name__, cls.__name__), case)
-    if r.fuzzyMatching is not False:
-        raise Violation('reader-options-not-applied', url, case)
-    if kind == 'file' and r._path != os.path.normpath(want['path']):
-        raise Violation('reader-path', '%s -> %r, expected %r' % (url, r._path, want['path']), case)
-    if kind == 'zip' and r._name != want['path']:
-        raise Violation('reader-path', '%s -> %r, expected %r' % (url, r._name, want['path']), case)
-    if kind == 'http':
-        exp = '%s://%s:%d%s' % ('https' if want['ssl'] else 'http', want['host'], want['port'], want['loc'])
-        if r._url != exp:
-            raise Violation('http-reader-url', '%s -> %r, expected %r' % (url, r._url, exp), case)
-    if kind == 'ftp':
-        got = (r._host, r._port, bool(r._ssl), r._user)
-        if got != (want['host'], want['port'], want['ssl'], want['user']):
-            raise Violation('ftp-reader-params', '%s -> %r, expected %r' % (url, got, want), case)
+    _judge_reader(row, readers[0], case)
     if len(rec.samples) < 3:
         rec.sample(case)
+
+
+@st.composite
+def url_lists(draw):
+    rows = url_table()
+    idx = draw(st.lists(st.integers(0, len(rows) - 1), min_size=2, max_size=4))
+    return {'rows': idx}
+
+
+def urllist_prop(case, rec):
+    """One call with several URLs: every reader is the one its own URL denotes, in the order given."""
+    from pysmi.reader.url import getReadersFromUrls
+    from pysmi import error
+    rows = [url_table()[i] for i in case['rows']]
+    urls = [r[0] for r in rows]
+    try:
+        readers = getReadersFromUrls(*urls, **dict(fuzzyMatching=False))
+    except error.PySmiError:
+        readers = 'error'
+    except Exception as e:
+        raise Violation('url-foreign-exception', '%r: %r' % (urls, e), case)
+    rec.evaluated()
+    kinds = [r[1] for r in rows]
+    rec.count('urllist.' + '+'.join(sorted(set(kinds))))
+    if 'error' in kinds:
+        if readers != 'error':
+            raise Violation('unknown-scheme-accepted', repr(urls), case)
+        return
+    if readers == 'error' or len(readers) != len(rows):
+        raise Violation('url-rejected', '%r -> %r' % (urls, readers), case)
+    for row, r in zip(rows, readers):
+        _judge_reader(row, r, dict(case, urls=urls))
+    if len(set(kinds)) > 1:
+        rec.mark_nontrivial(digest(['urllist', urls]))
 
 
 # ---------------------------------------------------------------------------
@@ -485,7 +635,9 @@ def run(ctx):
     ctx.search('dirs', trees, file_prop, ctx.pick(4000, 120000))
     ctx.search('zips', trees, zip_prop, ctx.pick(2400, 80000))
     ctx.search('http', http_cases, http_prop, ctx.pick(2000, 40000))
+    ctx.search('ziptrees', archive_trees, ziptree_prop, ctx.pick(1600, 50000))
     ctx.sweep('urls', url_table(), url_prop)
+    ctx.search('urllists', url_lists, urllist_prop, ctx.pick(1600, 30000))
     callback_prop(ctx)
     probes(ctx)
     ctx.extra_cov['exhaustive_subdomain'] = 'URL dispatch table: %d URL shapes enumerated completely' % len(url_table())
@@ -498,6 +650,10 @@ def replay(ctx, data):
     s = data.get('search')
     if s == 'zips':
         zip_prop(case, rec)
+    elif s == 'ziptrees':
+        ziptree_prop(case, rec)
+    elif s == 'urllists':
+        urllist_prop(case, rec)
     elif s == 'http':
         http_prop(case, rec)
     elif s == 'urls':
